@@ -1432,8 +1432,10 @@ def run_(ctx, res):
             s = sites.get(key)
             fnp = key.split('|')[0]
             vs = s.verdicts if s else set()
-            if not vs and fnp.split('::{closure')[0] in analysed:
-                verdict = 'discharged'      # infeasible under the facts of every analysed context (pruned path)
+            if not vs and fnp.split('::{closure')[0] in analysed and fnp in PRECONDITIONS and key.split('|')[1] == 'panic':
+                # the failing arm of a `debug_assert!` that restates the helper's `# Safety` contract: the contract is a
+                # fact inside the helper (and an obligation at each of its call sites), so the arm is pruned as infeasible
+                verdict = 'discharged'
             elif not vs:
                 verdict = 'unvisited'
             elif 'undischarged' in vs or 'reached' in vs:
